@@ -80,6 +80,12 @@ def directed_invocations(rng):
             if rng.random() < 0.5:
                 blocks = blocks[2:] + blocks[:2]
             out.append(((tr + " " if tr else "") + " ".join(blocks), blocks))
+    # two DIFFERENT dispatch traits with one final identifier (`D0` and `m::D0`) bounding the same parameter: two keys (seeded change C11f)
+    for _ in range(2):
+        rng.shuffle(marks)
+        item = 'const NAME: &\'static str = "x";'
+        blocks = [f"impl<T: D0<G = {marks[0]}> + m::D0<G = {a_}>> Kita for T {{ {item} }}" for a_ in (marks[1], marks[2], marks[3])]
+        out.append(("pub trait Kita { const NAME: &'static str; } " + " ".join(blocks), blocks))
     return out
 
 
